@@ -37,7 +37,7 @@ var Registry = map[string]func(*core.Prog, *core.Report){
 	"C14": with(C14, cfg1OptionsImmutable, mg3Only, cf2RecoveryIgnoresLimit, batchGroup, cl1CloseAll, fn1NamesSortLikeIds),
 	"C15": with(C15, pool2SingleRelease, pool3BufferSingleRelease, pool4NoUseAfterRelease, rt2Decoded),
 	"C16": with(C16, rm1RemovalTargets),
-	"C17": with(C17, bt3FlushLoopComplete, cd11Only, tb3bIndexImplParity),
+	"C17": with(C17, bt3FlushLoopComplete, cd11Only, tb3bIndexImplParity, bt5SizeBookkeeping),
 	"C18": with(C18, mergeGroup, cd11Only),
 	"C19": with(C19, batchGroup),
 	"C20": with(C20, ps5MergeOnly, lk13BackendState, vf3MergeOnly, cp2BackupCopies, err1WrapPolarity),
